@@ -555,6 +555,22 @@ def _fresh(e: ast.AST | None) -> bool:
 	return False
 
 
+def _fresh_local(fn_node: ast.AST, e: ast.AST | None) -> bool:
+	"""a local name whose every binding in the function is a fresh list expression (`out = []` ... `out.append(x)` ... `return out`)"""
+	if not isinstance(e, ast.Name):
+		return False
+	binds = []
+	for n in walk_no_nested(fn_node):
+		if isinstance(n, ast.Assign) and any(isinstance(t, ast.Name) and t.id == e.id for t in n.targets):
+			binds.append(n.value)
+		elif isinstance(n, ast.AnnAssign) and isinstance(n.target, ast.Name) and n.target.id == e.id:
+			binds.append(n.value)
+		elif isinstance(n, (ast.For, ast.comprehension)) and any(isinstance(t, ast.Name) and t.id == e.id for t in ast.walk(n.target)):
+			return False
+	params = {a.arg for a in fn_node.args.posonlyargs + fn_node.args.args + fn_node.args.kwonlyargs}
+	return bool(binds) and e.id not in params and all(_fresh(v) for v in binds)
+
+
 def rule_f(rep: Report, idx: SourceIndex, nm: NodeModel) -> None:
 	r = rep.rule('C09/node-lists-not-mutated', 'a list obtained from a node property is mutated in place only if every definition of that property builds a fresh list on each call (properties are re-read by Procedure: a shared list that shrinks between flattening and popping misaligns the event)', floor=1)
 	list_props: dict[str, list[FuncInfo]] = {}
@@ -604,7 +620,7 @@ def rule_f(rep: Report, idx: SourceIndex, nm: NodeModel) -> None:
 				stale = []
 				for g in list_props[prop]:
 					rets = [x.value for x in walk_no_nested(g.node) if isinstance(x, ast.Return)]
-					if not rets or not all(_fresh(x) for x in rets):
+					if not rets or not all(_fresh(x) or _fresh_local(g.node, x) for x in rets):
 						stale.append(f'{g.cls.name}.{prop} returns `{unparse(rets[0])[:60] if rets else "?"}`')
 				key = f'{rel}:{q}:{unparse(n)[:50]}'
 				r.check(not stale, key, (rel, n.lineno), f'`{unparse(n)[:70]}` mutates in place the list read from node property `{prop}`, but {stale[:2]} hand out a shared (cached / underlying) list: the node\'s own property shrinks, so Procedure pops a different count than the walker flattened', unparse(n)[:100])
